@@ -96,8 +96,10 @@ class CFG:
             self._loop_stack.pop()
             for e in body_end:
                 self._edge(e, h)
-            after = [h]
-            if s.orelse:
+            # `while True:` (a constant true test) has no false edge: it is left through break / return / raise only
+            endless = isinstance(s, ast.While) and isinstance(s.test, ast.Constant) and bool(s.test.value)
+            after = [] if endless else [h]
+            if s.orelse and not endless:
                 after = self._block(s.orelse, [h])
             return after + breaks
         if isinstance(s, (ast.With, ast.AsyncWith)):
